@@ -301,7 +301,7 @@ class PathBasedRoutingProblem(RoutingProblem):
         """
         # Add routes greedily (no/little exploration),
         # but keep the list of unvisited nodes.
-        exit_penalty = np.max(self.route_costs)
+        exit_penalty = max(self.route_costs, default=0)
         time_penalty = 10
         node_costs = [0]*len(self.nodes)
         node_costs[self.depot_index] = exit_penalty
@@ -332,6 +332,9 @@ class PathBasedRoutingProblem(RoutingProblem):
             logger.debug(f"Unvisited node: {self.node_names[u]}, "+\
                          f"loading: {self.nodes[u].get_load()}")
             new_node = f"mf_Dum_{u}"
+            # (the name may already be taken by an earlier call of this heuristic)
+            while new_node in self.node_names:
+                new_node += "_"
             # Add node - remember, node is defined by DEMAND = -LOADING
             self.add_node(new_node, -new_node_loading)
             new_node_index = self.node_names.index(new_node)
